@@ -11,7 +11,7 @@ import itertools
 from typing import Any, Dict, Iterator, List
 
 from . import _c03_check as chk
-from . import _c03_model as model
+from . import _c03_known as known
 
 RULE = ("cases = gene layouts built from gap sequences (overlap, touching, cutoff-1, cutoff, cutoff+1 for "
         "each cutoff in the ruleset, far) x lead/tail offsets around the neighbourhood on linear records, and "
@@ -35,9 +35,10 @@ def _rule(name: str, cut: int, nbh: int, cond: str, sup: Any = None, ext: Any = 
     return rule
 
 
-BOTH = [-2, 0, C1 - 1, C1, C1 + 1, C2 - 1, C2, C2 + 1, C2 + 3]
-SMALL = [0, C1 - 1, C1, C2, C2 + 3]
-MID = [-2, 0, C1 - 1, C1, C2 - 1, C2, C2 + 3]
+FAR = 30
+BOTH = [-2, 0, C1 - 1, C1, C1 + 1, C2 - 1, C2, C2 + 1, C2 + 3, FAR]
+SMALL = [0, C1 - 1, C1, C2, FAR]
+MID = [-2, 0, C1 - 1, C1, C2 - 1, C2, FAR]
 EDGE = [0, 2, 3, 5, 6]
 
 SINGLE = [[_rule("r0", C1, 2, "a"), _rule("r1", C2, 5, "a")]]
@@ -56,57 +57,65 @@ CONDS = [
 
 
 def families(tier: str) -> Dict[str, Dict[str, Any]]:
-    """ the enumerated families (quick: as listed; thorough: wider menus) """
+    """ the enumerated families (quick: as listed; thorough: wider menus, more origins) """
     wide = tier != "quick"
+    nine = [-2, 0, C1 - 1, C1, C1 + 1, C2 - 1, C2, C2 + 1, FAR]
+    six = [-2, 0, C1 - 1, C1, C2, FAR]
+    four = [0, C1, C2, FAR]
+    mixed = [h for h in itertools.product(("a", "b", "ab", "c"), repeat=3)
+             if "a" in "".join(h) and "b" in "".join(h)]
     fams: Dict[str, Dict[str, Any]] = {
         # one profile, every gene anchors: chain strictness, hull, neighbourhood, wrap
         "chain2": {"lens": (3, 4), "gaps": BOTH + [14], "hits": [("a", "a")], "rulesets": SINGLE,
                    "leads": EDGE, "tails": EDGE, "cuts": 1},
-        "chain3": {"lens": (3, 4, 5), "gaps": BOTH, "hits": [("a", "a", "a"), ("a", "c", "a")], "rulesets": SINGLE,
+        "chain3": {"lens": (3, 4, 5), "gaps": nine, "hits": [("a", "a", "a")], "rulesets": SINGLE,
                    "leads": [0, 2, 5], "tails": [0, 3, 6]},
+        "chainx3": {"lens": (3, 4, 5), "gaps": SMALL, "hits": [("a", "c", "a"), ("a", "", "a")], "rulesets": SINGLE,
+                    "leads": [0, 2], "tails": [0, 3]},
         "chain4": {"lens": (3, 4, 3, 5), "gaps": SMALL, "hits": [("a", "a", "a", "a")], "rulesets": SINGLE,
                    "leads": [0, 2], "tails": [0, 3]},
         # nested / same start / same end genes
         "nest3": {"lens": (7, 3, 4), "gaps": [[-7, -6, -3], BOTH, BOTH], "hits": [("a", "a", "a"), ("a", "", "a")],
-                  "rulesets": SINGLE, "leads": [0, 2], "tails": [0, 5]},
+                  "rulesets": SINGLE, "leads": [0, 2], "tails": [0, 5], "cuts": -1},
         # two-gene rule, three rules of mixed cutoffs (the per-cutoff cache)
         "pair2": {"lens": (3, 4), "gaps": BOTH + [14], "hits": [("a", "b"), ("ab", "a")], "rulesets": PAIRS,
                   "leads": [0, 3], "tails": [0, 6], "cuts": 1},
         "pair3": {"lens": (3, 4, 3), "gaps": MID, "hits": [("a", "b", "a"), ("a", "b", "b"), ("a", "", "b"),
                                                             ("b", "a", "c")],
-                  "rulesets": PAIRS, "leads": [0, 3], "tails": [0, 6]},
+                  "rulesets": PAIRS, "leads": [0, 3], "tails": [0, 6], "cuts": -1},
         # superiors
-        "sup3": {"lens": (3, 4, 3), "gaps": MID, "hits": [("ab", "b", "a"), ("b", "a", "b"), ("a", "b", "a"),
+        "sup3": {"lens": (3, 4, 3), "gaps": six, "hits": [("ab", "b", "a"), ("b", "a", "b"), ("a", "b", "a"),
                                                            ("b", "ab", "b")],
-                 "rulesets": SUPS, "leads": [0, 5], "tails": [0, 2]},
-        "sup4": {"lens": (3, 3, 4, 3), "gaps": SMALL, "hits": [("a", "b", "b", "a"), ("b", "a", "a", "b")],
-                 "rulesets": SUPS, "leads": [0], "tails": [2]},
+                 "rulesets": SUPS, "leads": [0, 5], "tails": [0, 2], "cuts": -1},
+        "sup4": {"lens": (3, 3, 4, 3), "gaps": four, "hits": [("a", "b", "b", "a"), ("b", "a", "a", "b")],
+                 "rulesets": SUPS, "leads": [0], "tails": [2], "cuts": -1},
         # extenders
-        "ext3": {"lens": (3, 4, 3), "gaps": [-2, 0, C1 - 1, C1, C1 + 1, C2, C2 + 3],
+        "ext3": {"lens": (3, 4, 3), "gaps": [-2, 0, C1 - 1, C1, C1 + 1, C2, FAR],
                  "hits": [("c", "a", "c"), ("a", "c", "c"), ("a", "", "c"), ("a", "b", "c")],
-                 "rulesets": EXTS, "leads": [0, 2], "tails": [0, 5]},
+                 "rulesets": EXTS, "leads": [0, 2], "tails": [0, 5], "cuts": -1},
         # the other condition kinds
-        "cond3": {"lens": (3, 4, 3), "gaps": SMALL,
-                  "hits": [h for h in itertools.product(("a", "b", "ab", "c"), repeat=3)
-                           if "a" in "".join(h) and "b" in "".join(h)][:24],
-                  "rulesets": CONDS, "leads": [0], "tails": [3]},
+        "cond3": {"lens": (3, 4, 3), "gaps": SMALL, "hits": mixed[::5], "rulesets": CONDS,
+                  "leads": [0], "tails": [3], "cuts": -1},
     }
     if wide:
+        for fam in fams.values():
+            fam["cuts"] = 1
+        fams["chain3"]["gaps"] = BOTH
         fams["chain4"]["gaps"] = MID
-        fams["chain3"]["cuts"] = 1
         fams["pair3"]["gaps"] = BOTH
-        fams["sup3"]["gaps"] = BOTH
-        fams["sup4"]["gaps"] = MID
+        fams["sup3"]["gaps"] = MID
+        fams["sup4"]["gaps"] = SMALL
         fams["ext3"]["gaps"] = BOTH
+        fams["cond3"]["hits"] = mixed
         fams["nest3"]["gaps"] = [[-7, -6, -5, -3, -2], BOTH, BOTH]
         fams["chain5"] = {"lens": (3, 4, 3, 5, 3), "gaps": SMALL, "hits": [("a",) * 5], "rulesets": SINGLE,
-                          "leads": [0, 2], "tails": [0, 3]}
+                          "leads": [0, 2], "tails": [0, 3], "cuts": 0}
     return fams
 
 
 # relative cost of the families (number of parts each is split into)
-PARTS = {"chain2": 1, "chain3": 8, "chain4": 6, "nest3": 6, "pair2": 1, "pair3": 8, "sup3": 10, "sup4": 5,
-         "ext3": 6, "cond3": 5, "chain5": 8}
+PARTS = {"chain2": 2, "chain3": 6, "chainx3": 2, "chain4": 8, "nest3": 5, "pair2": 2, "pair3": 6, "sup3": 6,
+         "sup4": 6, "ext3": 6, "cond3": 5, "chain5": 8}
 
 
 def shards(tier: str, seed: int) -> list:
@@ -126,11 +135,14 @@ def _report(case: Dict[str, Any], run: Any) -> None:
     try:
         results = chk.evaluate(case)
         nontrivial = chk.is_nontrivial(case)
+        ctx = known.Context(case)
+        labelled = [(known.label(clause, ctx, where), holds, detail, where)
+                    for clause, holds, detail, where in results]
     except Exception as err:  # pylint: disable=broad-except
         run.error(f"harness failure on {case!r}: {type(err).__name__}: {err}")
         return
-    for clause, holds, detail, where in results:
-        shown = case if holds or not where else dict(case, at=where)
+    for clause, holds, detail, where in labelled:
+        shown = dict(case, at=where) if where and not holds else case
         run.check(clause, holds, shown, nontrivial=nontrivial, detail=detail, key=case)
 
 
@@ -183,28 +195,15 @@ def run_shard(shard: Dict[str, Any], run: Any) -> None:
 
 
 def replay(case: Dict[str, Any]) -> List[str]:
-    """ re-evaluate every clause on one stored case (the optional "at" marker is ignored) """
+    """ re-evaluate every clause on one stored case (the "at" marker of a stored failure is ignored) """
     plain = {k: v for k, v in case.items() if k != "at"}
-    return [f"{clause}: {detail}" for clause, holds, detail, _ in chk.evaluate(plain) if not holds]
+    ctx = known.Context(plain)
+    return [f"{known.label(clause, ctx, where)}: {detail}"
+            for clause, holds, detail, where in chk.evaluate(plain) if not holds]
 
 
 # ----------------------------------------------------------------------------------------------
-#  known findings: narrow classes of inputs at one clause (computed from the INPUT only)
+#  known findings: narrow input classes per clause, see bounded/_c03_known.py
 # ----------------------------------------------------------------------------------------------
 
-def _rule_of(case: Dict[str, Any]) -> Dict[str, Any]:
-    name = case.get("at", {}).get("rule")
-    for rule in case["rules"]:
-        if rule["n"] == name:
-            return rule
-    return {}
-
-
-def _spans_at(case: Dict[str, Any]) -> list:
-    genes = case.get("at", {}).get("genes") or []
-    if not genes:
-        return []
-    return chk.Geometry(case).spans(genes)
-
-
-FINDING_CLASSES: Dict[str, Any] = {}
+FINDING_CLASSES: Dict[str, Any] = {fid: known.classifier(fid) for fid in known.FINDING_IDS}
